@@ -366,7 +366,7 @@ pub fn run(ctx: &Ctx, rep: &mut Report) {
         });
     });
     rep.exhaustive.push(format!("all strings of length <= {max_len} over the per-format alphabet x {} (format, type, options) triples", js.len()));
-    let per = ctx.n(1500, 150_000);
+    let per = ctx.n(1500, 30_000);
     run_prop_jobs(
         rep,
         ctx,
@@ -391,7 +391,7 @@ pub fn run(ctx: &Ctx, rep: &mut Report) {
         ctx,
         "generated:special-strings",
         &fj,
-        ctx.n(1500, 100_000),
+        ctx.n(1500, 25_000),
         |j| {
             let m = &cat().models[j.entry];
             special_strategy(m, &opt_model(m, j.punct))
